@@ -10,15 +10,18 @@ PID = 'C06'
 SHARD_SIZE = 150
 RULE = ('random well-typed expression trees (depth 0..4 quick, 0..6 thorough) over the 14 modelled classes '
         '(OperatorSum/VectorSum/Comp/PointwiseProduct/Left-,RightScalarMult/Left-,RightVectorMult/FunctionalLeftVectorMult, '
-        'Broadcast/Reduction/Diagonal/ProductSpaceOperator with holes) with leaves Scaling/Identity/Multiply/Matrix/'
-        'InnerProduct/Zero/Constant/Power/ufunc square,reciprocal,negative,absolute,sign/PointwiseNorm(1)/PointwiseInner/'
-        'a user-defined cubic operator, on rn(1..3), the scalar field and product spaces of 1..3 parts; block operators '
-        'also forced at the root; integer and dyadic points/directions; per case the operator value, is_linear, the '
-        'WHOLE object returned by derivative(x) (class skeleton + every scalar/vector/point it holds), its '
-        'is_linear/domain/range and its value on a direction are compared, or that derivative(x) raises; Norm/Dist/'
-        'PointwiseNorm(2) on Pythagorean points; every entry of the regenerated ufunc derivative/gradient tables '
-        'against numpy primitives.  A tree case is non-trivial when the operator is flagged nonlinear; distinct by '
-        '(tree, x, d).')
+        'Broadcast/Reduction/Diagonal/ProductSpaceOperator with holes), built from the constructors and from the '
+        'arithmetic overloads, with leaves Scaling/Identity/Multiply/Matrix/InnerProduct/Zero/Constant/Power/ufunc '
+        'square,reciprocal,negative,absolute,sign/PointwiseNorm(1)/PointwiseInner/RealPart/ImagPart/'
+        'ComplexModulusSquared/a user-defined cubic operator, on rn(1..3), cn(1..3), the scalar field and product '
+        'spaces of 1..3 parts; block operators also forced at the root; 12% second-order cases (the object returned by '
+        'derivative is differentiated again); integer and dyadic points/directions; per case the operator value, '
+        'is_linear, the WHOLE object returned by derivative(x) (class skeleton + every scalar/vector/point it holds), '
+        'its is_linear/domain/range and its value on a direction are compared, or that derivative(x) raises; '
+        'Norm/Dist/PointwiseNorm(2)/ComplexModulus/L2Norm on Pythagorean points; every entry of the regenerated ufunc '
+        'derivative/gradient tables against numpy primitives; random trees of the functional arithmetic (value, '
+        'gradient element, derivative(x)(d), class of derivative(x)).  A tree case is non-trivial when the operator is '
+        'flagged nonlinear; distinct by (tree, x, d).')
 ASSUMPTIONS = ['exact arithmetic: the model is evaluated over Q / proved over R; float rounding is outside the theorems '
                '(tolerance 1e-9 abs+rel in the correspondence)',
                'elements of rn(n) are modelled as lists, the scalar field as singleton lists, product-space elements as '
@@ -590,6 +593,15 @@ def tree_cases(rng, tier):
             raise RuntimeError('generator built an ill-typed tree: %r' % ex)
         x = g.el(dom, zero_ok=False)
         d = g.el(dom)
+        if rng.random() < 0.12:
+            # second order: the object returned by derivative(x) is itself an operator tree (linear,
+            # holding inner points): differentiate IT ("linear => self" on derived objects)
+            try:
+                with np.errstate(all='ignore'):
+                    op = op.derivative(x)
+                x = g.el(dom, zero_ok=False)
+            except Exception:
+                continue
         try:
             r = run_case(op, x, d)
         except (ValueError, OverflowError, ZeroDivisionError):
@@ -1474,19 +1486,21 @@ LEVEL_TEXT = ('Proof: Coq theorem for EVERY expression tree (any depth, any numb
               'Comp/PointwiseProduct/Left-,RightScalarMult/Left-,RightVectorMult/FunctionalLeftVectorMult and the '
               'product-space operators Broadcast/Reduction/Diagonal/ProductSpaceOperator, with leaves Scaling, Multiply, '
               'Matrix, InnerProduct, Zero, Constant, Power (integer), every ufunc with a derivative, Norm, Dist, '
-              'PointwiseNorm (exponent 1, 2; weights) / PointwiseInner and arbitrary user-defined leaves: at every '
-              'regular point where derivative(x) returns, the returned object evaluates to the Frechet (Hadamard) '
-              'derivative, is a bounded linear map domain -> range, is flagged linear and passes the space checks; hence '
-              'its action on d is the limit of central differences (epsilon-delta theorem) and is unique. Flagged-linear '
-              'trees are proved linear and their own derivative; affine ones have the derivative of the linear part; on '
-              'R^n additivity+homogeneity is proved to imply boundedness. Each entry of the ufunc derivative/gradient '
-              'tables REGENERATED from ufunc_ops.py is proved to be the derivative of its ufunc. The model is tied to the '
-              'code by a structural correspondence on random trees (the whole derivative object is compared).')
-LEVEL_NOTE = ('Validated, not proved: the O(h^2) rate; ComplexModulus(Squared), RealPart/ImagPart, non-integer powers, '
-              'PointwiseNorm exponents other than 1, 2, functional gradients (Functional.derivative), weighted/discretised/'
-              'complex spaces, finite-difference operators with pad_const -- all by central-difference probes on the real '
-              'objects. Exact arithmetic: rounding out of scope. Seven recorded findings (findings/C06.json) with four '
-              'proposed fixes. Axioms: classical reals, funext, classic as printed.')
+              'PointwiseNorm (exponent 1, 2; weights) / PointwiseInner, RealPart, ImagPart, ComplexModulus(Squared) '
+              '(real and complex spaces) and arbitrary user-defined leaves: at every regular point where derivative(x) '
+              'returns, the returned object evaluates to the Frechet (Hadamard) derivative, is a bounded linear map '
+              'domain -> range, is flagged linear and passes the space checks; hence its action on d is the limit of '
+              'central differences (epsilon-delta theorem) and is unique. Flagged-linear trees are proved linear and their '
+              'own derivative; affine ones have the derivative of the linear part; on R^n additivity+homogeneity is '
+              'proved to imply boundedness. For every tree of the functional arithmetic, <gradient(x), .> '
+              '(= Functional.derivative(x)) is proved to be the derivative. Each entry of the ufunc derivative/gradient '
+              'tables REGENERATED from ufunc_ops.py is proved to be the derivative of its ufunc. The models are tied to '
+              'the code by a structural correspondence on random trees (the whole derivative object is compared).')
+LEVEL_NOTE = ('Validated, not proved: the O(h^2) rate; non-integer powers, PointwiseNorm exponents other than 1, 2, '
+              'complex scalars/products, the remaining ~20 functionals, weighted/discretised spaces (theorems are for '
+              'unweighted rn/cn), finite-difference operators with pad_const -- all by central-difference probes on the '
+              'real objects. Exact arithmetic: rounding out of scope. Seven recorded findings (findings/C06.json) with '
+              'four proposed fixes. Axioms: classical reals, funext, classic as printed.')
 TECHNIQUE = ('Coq proof by structural induction over a deep embedding of operator arithmetic (nested lists for block '
              'operators), with a curve-based (Hadamard) differentiability calculus on R^n built on the standard-library '
              'derivable_pt_lim; source-regenerated ufunc tables; in-Coq structural differential correspondence with a '
